@@ -43,6 +43,11 @@ def op_readkeys(r):
     secret = printable(r, slen)
     if r.chance(1, 8):
         secret = secret.replace(b"=", b"x")           # most secrets may contain '=' (the line is split at the first one)
+    if r.chance(1, 4) and len(secret) >= 3:
+        # blanks inside the value are part of the value (the line is cut at the first '=' and at its end, nowhere else)
+        for _ in range(r.range(1, 2)):
+            p = r.range(1, len(secret) - 2) if r.chance(3, 4) else r.choice([0, len(secret) - 1])
+            secret = secret[:p] + r.choice([b" ", b"\t"]) + secret[p + 1:]
     kid = printable(r, r.range(4, 20), 0x41, 0x5a)
     idl = b"ACCESS_KEY_ID=" + kid + b"\n"
     secl = b"ACCESS_KEY_SECRET=" + secret + b"\n"
